@@ -148,6 +148,33 @@ def rule_claim_perm(ctx: RuleContext, p: Program, rid: str) -> None:
         raise AnalysisError(f'CLAIM-PERM: only {n} store mutation sites in the claim code (4 confirmed by hand)')
 
 
+def rule_take_ignored(ctx: RuleContext, p: Program, rid: str) -> None:
+    ctx.rule(rid, '_take_ignored(token, succ, ignored) steps only over Placeholder tokens: its loop runs while '
+                  'isinstance(token, Placeholder), appends exactly that token to the collector and advances with succ; every other '
+                  'token (Newline, DedentMark, Eol, comments ...) stops the walk, so claims cannot cross an indentation boundary '
+                  'and the re-inserted token list is exactly what was walked')
+    f = p.func('models.internal.surrounding_comments', '_take_ignored')
+    tok, succ, coll = f.params[0], f.params[1], f.params[2]
+    loops = [l for l in walk_no_nested(f.node) if isinstance(l, (ast.While, ast.For))]
+    problems = []
+    if len(loops) != 1 or not isinstance(loops[0], ast.While):
+        problems.append('expected a single while loop')
+    else:
+        lp = loops[0]
+        t = lp.test
+        if not (isinstance(t, ast.Call) and norm(t.func) == 'isinstance' and norm(t.args[0]) == tok and norm(t.args[1]) == 'Placeholder'):
+            problems.append(f'the walk continues while `{norm(t)}`; it must continue only while the token is a Placeholder (other zero-width '
+                            f'tokens such as the dedent mark delimit indentation classes)')
+        body = [norm(s) for s in lp.body]
+        if body != [f'{coll}.append({tok})', f'{tok} = {succ}({tok})']:
+            problems.append(f'loop body is {body}; expected append the token, then advance with succ')
+    rets = [norm(r.value) for r in walk_no_nested(f.node) if isinstance(r, ast.Return)]
+    if rets != [tok]:
+        problems.append(f'returns {rets}, expected the first non-placeholder token')
+    ctx.check(not problems, rid, 'models.internal.surrounding_comments:_take_ignored', '; '.join(problems) or 'ok', '; '.join(problems), f.where,
+              note='while isinstance(token, Placeholder): collect; advance')
+
+
 def _is_permutation(f: FuncInfo, c: ast.Call) -> str:
     if len(c.args) != 3:
         return 'splice without explicit end points'
@@ -222,6 +249,7 @@ def run(ctx: RuleContext, p: Program) -> None:
     ctx.try_rule(rule_pure, p, 'PURE')
     ctx.try_rule(rule_store_read_pure, p, 'STORE-READ-PURE')
     ctx.try_rule(rule_claim_perm, p, 'CLAIM-PERM')
+    ctx.try_rule(rule_take_ignored, p, 'TAKE-IGNORED')
     ctx.not_decided += ['which placeholders sit next to a comment (the neighbourhood argument)', 'relative order of non-placeholder '
                         'tokens in _claim_comment\'s explicit list (read off by the reviewer: newline, comment kept in walk order)']
     ctx.assumptions += ['primitive models of the effect interpreter (see C19)', '_take_ignored only appends Placeholder tokens it walks over '
